@@ -64,20 +64,20 @@ change the impedance between `a` and `b`. -/
 theorem C06_ref_indep (N : Net L K) (pid : String) (a b g : L) (z : K)
     (h : PortZ N pid a b z) : PortZ { N with zero := g } pid a b z := by
   have move : ∀ (M : Net L K) (g : L) (R : Report L K), CircuitEqs (probeNet M pid a b 1) R →
-      CircuitEqs (probeNet { M with zero := g } pid a b 1) (R.shift (R.pot g)) := by
+      CircuitEqs (probeNet { M with zero := g } pid a b 1) (R.portShift (R.pot g)) := by
     intro M g R hR
     obtain ⟨h1, e1, e2⟩ := (probe_iff M pid a b 1 R).mp hR
     rw [probe_iff]
     refine ⟨?_, e1, ?_⟩
     · exact eqsInj_shift g h1
-    · simp only [Report.shift]; rw [e2]; ring
+    · simp only [Report.portShift]; rw [e2]; ring
   obtain ⟨⟨R, hR⟩, hall⟩ := h
   refine ⟨⟨_, move N g R hR⟩, fun S hS => ?_⟩
   have hback := move { N with zero := g } N.zero S hS
   have : ({ ({ N with zero := g } : Net L K) with zero := N.zero } : Net L K) = N := by cases N; rfl
   rw [this] at hback
   have := hall _ hback
-  simp only [Report.shift] at this
+  simp only [Report.portShift] at this
   linear_combination this
 
 /-- **C06 (identical nodes).**  The impedance between a node and itself is zero. -/
@@ -382,8 +382,8 @@ theorem C06_impl_eq_spec_partial (N : Net L K) (inv : List (List K) → Option (
             have hR2 := probe_move N' pid a N'.zero N.zero R hR
             have hback : ({ N' with zero := N.zero } : Net L K) = N := by rw [hN']
             rw [hback] at hR2
-            have hport2 : (R.shift (R.pot N.zero)).pot a - (R.shift (R.pot N.zero)).pot N'.zero = z := by
-              simp only [Report.shift]; linear_combination hport
+            have hport2 : (R.portShift (R.pot N.zero)).pot a - (R.portShift (R.pot N.zero)).pot N'.zero = z := by
+              simp only [Report.portShift]; linear_combination hport
             by_cases hz1 : n1 = N.zero
             · -- swapped: the code worked on the port (n2, n1)
               have ea : a = n2 := by rw [ha]; simp [hz1]
@@ -392,7 +392,7 @@ theorem C06_impl_eq_spec_partial (N : Net L K) (inv : List (List K) → Option (
               obtain ⟨S, hS, hpot⟩ := probe_flip N pid hp n2 n1 _ hR2
               have := C06_unique N pid hp n1 n2 hw S hS
               rw [hpot n1, hpot n2] at this
-              have e : -(R.shift (R.pot N.zero)).pot n1 - -(R.shift (R.pot N.zero)).pot n2 = z := by
+              have e : -(R.portShift (R.pot N.zero)).pot n1 - -(R.portShift (R.pot N.zero)).pot n2 = z := by
                 linear_combination hport2
               rw [e] at this; exact this
             · have ea : a = n1 := by rw [ha]; simp [hz1]
